@@ -10,6 +10,7 @@ pub mod c04;
 pub mod c07;
 pub mod c09;
 pub mod c10;
+pub mod c11;
 pub mod c12;
 pub mod c13;
 
@@ -22,6 +23,7 @@ pub fn run(id: &str, tier: Tier, seed: u64) -> Option<i32> {
         "C07" => c07::run(tier, seed),
         "C09" => c09::run(tier, seed),
         "C10" => c10::run(tier, seed),
+        "C11" => c11::run(tier, seed),
         "C12" => c12::run(tier, seed),
         "C13" => c13::run(tier, seed),
         _ => return None,
